@@ -172,12 +172,26 @@ class ConWorld:
         self.notes = []
         self.witness_mode = False
 
-    def _get(self, name, default=0):
+    def _get(self, name, default=0, lo=None, hi=None, integer=False):
         v = self.model.get(name)
-        return Fraction(default) if v is None else v
+        if v is not None:
+            return v
+        if default is not None and lo is None and hi is None and default != 0:
+            return Fraction(default)
+        # a variable the solver left unconstrained: use a generic (deterministic pseudo-random) value, not 0
+        import hashlib
+        h = int(hashlib.sha1(name.encode()).hexdigest()[:8], 16)
+        g = Fraction((h % 129) - 64, 16) if not integer else Fraction((h % 9) + 1)
+        if lo is not None and g < Fraction(lo):
+            g = Fraction(lo) + abs(g) % 3
+        if hi is not None and g > Fraction(hi):
+            g = Fraction(hi) if lo is None else (Fraction(lo) + Fraction(hi)) / 2
+        if integer:
+            g = Fraction(int(g))
+        return g
 
-    def real(self, name, lo=None, hi=None): return float(self._get(name, lo if lo is not None else 0))
-    def int(self, name, lo=None, hi=None): return int(self._get(name, lo if lo is not None else 0))
+    def real(self, name, lo=None, hi=None): return float(self._get(name, None, lo, hi))
+    def int(self, name, lo=None, hi=None): return int(self._get(name, None, lo, hi, integer=True))
     def bool(self, name): return bool(self._get(name))
     def reals(self, name, n, **k): return rnp.array([self.real("%s%d" % (name, i), **k) for i in range(n)], dtype=rnp.float64)
 
@@ -333,7 +347,10 @@ def _discharge(fn, params, W, g, base, timeout, replay, pathno):
                     rec["verdict"] = "violated"
                     rec["model"] = {k: _fr(v) for k, v in mdl.items() if "!" not in k}
                 return ok
-            if not _try(raw):
+            if getattr(g, "lemma_index", None) is not None and not _try(raw) and (rec.get("replay") or {}).get("note") == "goal not reached concretely":
+                rec["verdict"] = "unknown"      # a stepping stone that has no concrete counterpart: simply not available to later goals
+                rec["reason"] = "lemma not provable (sat), dropped"
+            elif rec["verdict"] != "violated" and not _try(raw):
                 # ask for replay-friendly models: (a) harness-supplied "nice" constraints (dyadic parameters survive the
                 # conversion to binary64), (b) bounded inputs and a clear margin
                 for extra in ([W.nice + W.bounds] if W.nice else []) + ([W.nice] if W.nice else []) + ([[g.margin] + W.bounds] if g.margin is not None else []):
